@@ -21,14 +21,6 @@ pub fn hash_str(s: &str) -> u64 {
     h
 }
 
-pub fn hash_bytes(h0: u64, bytes: &[u8]) -> u64 {
-    let mut h = h0 ^ 0xcbf2_9ce4_8422_2325;
-    for b in bytes {
-        h = (h ^ *b as u64).wrapping_mul(0x0000_0100_0000_01B3);
-    }
-    h
-}
-
 impl Rng {
     pub fn new(seed: u64) -> Rng {
         Rng { state: seed }
@@ -71,9 +63,5 @@ impl Rng {
 
     pub fn pick<T: Clone>(&mut self, items: &[T]) -> T {
         items[self.below(items.len())].clone()
-    }
-
-    pub fn fork(&mut self) -> Rng {
-        Rng::new(self.next_u64())
     }
 }
